@@ -290,6 +290,7 @@ def run_property(prop, tier='quick', seed=0, jobs=None, only=None):
                         distinct_nontrivial=br['distinct_nontrivial']))
     b_samples.extend(br.get('samples', [])[:3])
     for fl in br['failures']:
+      fl['driver'] = br['driver']
       kid = fl['case_id']
       hit = None
       for k in known:
